@@ -106,6 +106,10 @@ func (v MV) toGo(flavour int) interface{} {
 	case mkStr:
 		return v.S
 	case mkBig:
+		if v.N == 1 { // handed over by the caller as a Go float64
+			f, _ := strconv.ParseFloat(v.S, 64)
+			return f
+		}
 		d, _ := new(decimal.Big).SetString(v.S) // unlimited precision
 		return d
 	case mkArr:
